@@ -690,7 +690,7 @@ class Lockstep:
 
 
 def d_initial_flip(batch, res):
-    from .c03_tls import MASKS, boundaries, field_at
+    from .c03_tls import MASKS, boundaries, field_at, fields, is_length_field, masks_for
 
     version = batch["version"]
     which = batch["which"]  # "ClientHello" | "ServerHello"
@@ -732,7 +732,19 @@ def d_initial_flip(batch, res):
     if targets is None:
         bnd = boundaries(msg)
         stride, phase = batch.get("stride", 1), batch.get("seed", 0) % max(1, batch.get("stride", 1))
-        allt = [(pos, m) for pos in range(ln) if stride <= 1 or pos in bnd or pos % stride == phase for m in (batch.get("masks") or MASKS)]
+        name_at = {}
+        for s_, e_, n_ in fields(msg):
+            for p_ in range(s_, e_):
+                name_at[p_] = n_
+        base = batch.get("masks") or MASKS
+        full = bool(batch.get("full_length_masks"))
+        allt = []
+        for pos in range(ln):
+            n_ = name_at.get(pos, "?")
+            special = n_ == "msg_type" or is_length_field(n_)
+            if special or stride <= 1 or pos in bnd or pos % stride == phase:
+                # header bytes / length fields: every value-decreasing mask (thorough: all 255)
+                allt.extend((pos, m) for m in masks_for(n_, msg[pos], base, full))
         targets = allt[batch.get("shard", 0) :: batch.get("nshards", 1)]
     receiver = "server" if which == "ClientHello" else "client"
     for pos, mask in targets:
